@@ -136,12 +136,49 @@ type c16Env struct {
 	cas    map[int]*c16CA  // ca number -> CA
 	certs  map[string]int  // sha1(DER) -> cid
 	serial int64
+	// cases on the wall clock with certificates that run out while the case runs ("expiry_clock"): the start of the
+	// case, and for every such certificate the instant the model has for its NotAfter (milliseconds since the start)
+	// next to the real one (whole seconds, not later than the model's)
+	origin   time.Time
+	expiries []c16Expiry
+}
+
+type c16Expiry struct {
+	modelMs  int
+	notAfter time.Time
+}
+
+// notAfterIn: the NotAfter of a certificate that runs out ms milliseconds after the start of the case (X.509 times have
+// a resolution of one second: the certificate is valid up to and including the last whole second before that instant)
+func (e *c16Env) notAfterIn(ms int) time.Time {
+	na := e.origin.Add(time.Duration(ms) * time.Millisecond).Truncate(time.Second)
+	e.expiries = append(e.expiries, c16Expiry{modelMs: ms, notAfter: na})
+
+	return na
+}
+
+// onSchedule: an operation the model places atMs milliseconds after the start of the case ran from t0 to t1. Was it, for
+// every certificate that runs out during the case, on the side of the expiry the model has it on (the model: valid while
+// now <= NotAfter; x509: expired when now.After(NotAfter))?
+func (e *c16Env) onSchedule(atMs int, t0, t1 time.Time) bool {
+	for _, x := range e.expiries {
+		if atMs <= x.modelMs {
+			if t1.After(x.notAfter) {
+				return false
+			}
+		} else if !t0.After(x.notAfter) {
+			return false
+		}
+	}
+
+	return true
 }
 
 type c16CA struct {
-	key  *ecdsa.PrivateKey
-	cert *x509.Certificate
-	der  []byte
+	key       *ecdsa.PrivateKey
+	cert      *x509.Certificate
+	der       []byte
+	expiresMs int
 }
 
 func c16NewEnv(c map[string]any) (*c16Env, error) {
@@ -150,7 +187,8 @@ func c16NewEnv(c map[string]any) (*c16Env, error) {
 		return nil, err
 	}
 
-	env := &c16Env{dir: dir, auto: map[string]int{}, cas: map[int]*c16CA{}, certs: map[string]int{}, serial: 1000}
+	env := &c16Env{dir: dir, auto: map[string]int{}, cas: map[int]*c16CA{}, certs: map[string]int{}, serial: 1000,
+		origin: time.Now()}
 
 	for pid, kd := range getArr(c, "keys") {
 		k, err := c16Key(getStr(obj(kd), "t"), getInt(obj(kd), "n"))
@@ -199,9 +237,15 @@ func (e *c16Env) cidOf(der []byte) int {
 	return -1
 }
 
-// ca returns certificate authority number n of the case; its certificate has the id 900+n
-func (e *c16Env) ca(n int) (*c16CA, error) {
+// ca returns certificate authority number n of the case; its certificate has the id 900+n. expiresMs > 0 (looked at
+// when the authority is created, i.e. at its first use in the case): its certificate runs out that many milliseconds
+// after the start of the case
+func (e *c16Env) ca(n int, expiresMs int) (*c16CA, error) {
 	if ca, ok := e.cas[n]; ok {
+		if expiresMs > 0 && ca.expiresMs != expiresMs {
+			return nil, fmt.Errorf("certificate authority %d of the case exists already with another validity period", n)
+		}
+
 		return ca, nil
 	}
 
@@ -222,6 +266,10 @@ func (e *c16Env) ca(n int) (*c16CA, error) {
 		IsCA:                  true,
 	}
 
+	if expiresMs > 0 {
+		tpl.NotAfter = e.notAfterIn(expiresMs)
+	}
+
 	der, err := x509.CreateCertificate(rand.Reader, tpl, tpl, key.Public(), key)
 	if err != nil {
 		return nil, err
@@ -232,7 +280,7 @@ func (e *c16Env) ca(n int) (*c16CA, error) {
 		return nil, err
 	}
 
-	ca := &c16CA{key: key, cert: cert, der: der}
+	ca := &c16CA{key: key, cert: cert, der: der, expiresMs: expiresMs}
 	e.cas[n] = ca
 	e.remember(der, 900+n)
 
@@ -283,7 +331,12 @@ func (e *c16Env) pemFile(store map[string]any, password string) ([]byte, error) 
 	for _, b := range blocks {
 		bm := obj(b)
 		if getStr(bm, "t") == "ca" {
-			if _, err := e.ca(getInt(bm, "ca")); err != nil {
+			expires := 0
+			if v, ok := bm["expires_ms"]; ok && v != nil {
+				expires = getInt(bm, "expires_ms")
+			}
+
+			if _, err := e.ca(getInt(bm, "ca"), expires); err != nil {
 				return nil, err
 			}
 		}
@@ -357,6 +410,11 @@ func (e *c16Env) pemFile(store map[string]any, password string) ([]byte, error) 
 				tpl.NotAfter = time.Date(2002, 1, 1, 0, 0, 0, 0, time.UTC)
 			}
 
+			if v, ok := bm["expires_ms"]; ok && v != nil {
+				// runs out while the case runs (also when the block is rendered again for a reload after that instant)
+				tpl.NotAfter = e.notAfterIn(getInt(bm, "expires_ms"))
+			}
+
 			if ski := getStr(bm, "ski"); ski != "" {
 				raw, err := hex.DecodeString(ski)
 				if err != nil {
@@ -372,7 +430,7 @@ func (e *c16Env) pemFile(store map[string]any, password string) ([]byte, error) 
 			)
 
 			if _, hasCA := bm["ca"]; hasCA && bm["ca"] != nil {
-				ca, cerr := e.ca(getInt(bm, "ca"))
+				ca, cerr := e.ca(getInt(bm, "ca"), 0)
 				if cerr != nil {
 					return nil, cerr
 				}
@@ -392,7 +450,7 @@ func (e *c16Env) pemFile(store map[string]any, password string) ([]byte, error) 
 				return nil, err
 			}
 		case "ca":
-			ca, err := e.ca(getInt(bm, "ca"))
+			ca, err := e.ca(getInt(bm, "ca"), 0)
 			if err != nil {
 				return nil, err
 			}
@@ -1251,7 +1309,12 @@ var errC16Late = errors.New("c16: the run missed its schedule")
 const c16MaxRetries = 12
 
 func c16RunSigner(c map[string]any) (any, error) {
-	for range c16MaxRetries {
+	retries := c16MaxRetries
+	if getBool(c, "expiry_clock") {
+		retries = 3 // every attempt waits for the certificates of the case to run out
+	}
+
+	for range retries {
 		res, err := c16RunSignerOnce(c)
 		if errors.Is(err, errC16Late) {
 			time.Sleep(20 * time.Millisecond)
@@ -1289,8 +1352,30 @@ func c16RunSignerOnce(c map[string]any) (any, error) {
 	origin := time.Now()
 	results := []any{}
 
+	// "expiry_clock": certificates of the case run out while it runs ("expires_ms" of certificate blocks). Every
+	// operation names the instant the model has for it ("at_ms" since the start of the case), is not started before it,
+	// and has to be over before / begin after the real expiry instants as the model has it (else the run is repeated)
+	clocked := getBool(c, "expiry_clock")
+	if !clocked && len(w.env.expiries) > 0 {
+		return nil, errors.New("certificates with expires_ms need the expiry_clock of the case")
+	}
+
+	if clocked && !w.env.onSchedule(0, w.env.origin, time.Now()) {
+		return nil, errC16Late // the key stores were not loaded before the first certificate ran out
+	}
+
 	for idx, o := range getArr(c, "ops") {
 		op := obj(o)
+
+		var opStart time.Time
+
+		if clocked {
+			if d := time.Until(w.env.origin.Add(time.Duration(getInt(op, "at_ms")) * time.Millisecond)); d > 0 {
+				time.Sleep(d)
+			}
+
+			opStart = time.Now()
+		}
 
 		switch getStr(op, "op") {
 		case "sign":
@@ -1351,6 +1436,10 @@ func c16RunSignerOnce(c map[string]any) (any, error) {
 			results = append(results, r)
 		default:
 			return nil, fmt.Errorf("unknown op %q", getStr(op, "op"))
+		}
+
+		if clocked && !w.env.onSchedule(getInt(op, "at_ms"), opStart, time.Now()) {
+			return nil, errC16Late
 		}
 	}
 
